@@ -584,6 +584,13 @@ fn const_j<'tcx>(tcx: TyCtxt<'tcx>, body: &Body<'tcx>, c: &ConstOperand<'tcx>) -
         o.set("fn", J::Str(path_of(tcx, *did)));
         o.set("fn_crate", J::Str(krate_of(tcx, *did)));
         o.set("substs", substs_j(args));
+        // a function item used as a value (`map_or_else(T::default, ..)`): resolve trait methods to the impl's item
+        let env = TypingEnv::post_analysis(tcx, body.source.def_id());
+        if let Ok(Some(inst)) = Instance::try_resolve(tcx, env, *did, args) {
+            let rd = inst.def_id();
+            o.set("fn_resolved", J::Str(path_of(tcx, rd)));
+            o.set("fn_resolved_crate", J::Str(krate_of(tcx, rd)));
+        }
         return o;
     }
     if let ty::Closure(did, _) = ty.kind() {
